@@ -71,7 +71,7 @@ impl It64 for Borrowed {
         self.0.rfold((0u64, FNV_BASIS), |(n, h), v| (n + 1, fnv_step(h, v)))
     }
     fn exact_len(&self) -> Option<usize> {
-        None // `treemap::Iter` is not an ExactSizeIterator
+        Some(self.0.len()) // `ExactSizeIterator for treemap::Iter` (iter.rs:305, 64-bit targets): `size_hint().0`
     }
 }
 
